@@ -1653,6 +1653,42 @@ def ob_frame_element(dim, nPe, law, reflect=False, canary=False):
     return Verdict(DISCHARGED, backend=BACKEND + "; rotation by its Cayley parameters", sub=nd * nd)
 
 
+@_guard
+def ob_frame_diffusion(dim, nPe, reflect=False):
+    """frame indifference of the diffusion operator, all Ne, nPg: the real GradU_A_GradV on dN' = Q dN with the (non-symmetric, general) conductivity tensor turned with the problem, A' = Q A Q^T,
+    gives the matrix of the unturned problem (a scalar unknown does not turn): K(Q dN, Q A Q^T) == K(dN, A), for every rotation (Cayley parameters; composed with a reflection when `reflect`)"""
+    asyms = tuple(f"a{i}{j}" for i in range(dim) for j in range(dim))
+    rot = ("a",) if dim == 2 else ("a", "b", "c")
+    sp = gen.Space(dict(wJ=(NE, NPG), dN=(NE, NPG, dim, nPe), kep=(NE, NPG)), scalars=asyms + rot)
+    g, NPs, Fe = env(sp, "EasyFEA.FEM.Operators.Bilinear")
+    fns = module_fns(BP, g, ["einsum", "GradU_A_GradV"])
+    one = sp.const(1)
+    if dim == 2:
+        a = sp.sym("a")
+        den = one + a * a
+        Q = [[(one - a * a) / den, -2 * a / den], [2 * a / den, (one - a * a) / den]]
+    else:
+        a, b, c_ = sp.sym("a"), sp.sym("b"), sp.sym("c")
+        den = one + a * a + b * b + c_ * c_
+        Q = [[(one + a * a - b * b - c_ * c_) / den, 2 * (a * b - c_) / den, 2 * (a * c_ + b) / den],
+             [2 * (a * b + c_) / den, (one - a * a + b * b - c_ * c_) / den, 2 * (b * c_ - a) / den],
+             [2 * (a * c_ - b) / den, 2 * (b * c_ + a) / den, (one - a * a - b * b + c_ * c_) / den]]
+    if reflect:
+        Q = [[-Q[i][0]] + Q[i][1:] for i in range(dim)]
+    Qa = sp.lift(np.array(Q, dtype=object))
+    A = sp.lift(np.array([[sp.sym(f"a{i}{j}") for j in range(dim)] for i in range(dim)], dtype=object))
+    Aq = gen.einsum("ia,ab,jb->ij", Qa, A, Qa)
+
+    def stiffness(dN, Amat):
+        me = sx.Mock("groupElem", dim=dim, nPe=nPe, Ne=NE, Get_weightedJacobian_e_pg=lambda mt: sp.fe("wJ"), Get_dN_e_pg=lambda mt: GFe._wrap(dN),
+                     Get_DiffusePart_e_pg=lambda mt: GFe._wrap(gen.einsum("ep,epij->epji", sp.arr("wJ"), dN)))
+        return _plain(fns["GradU_A_GradV"](me, Amat, sp.arr("kep")))
+    K = stiffness(sp.arr("dN"), A)
+    Kq = stiffness(gen.einsum("ij,epjn->epin", Qa, sp.arr("dN")), Aq)
+    check(Kq, K, f"diffusion matrix of the turned element (dim {dim}, nPe {nPe}{', reflected' if reflect else ''}) vs the matrix of the unturned one", f"frame:diffusion:{dim}:{nPe}:{reflect}")
+    return Verdict(DISCHARGED, backend=BACKEND + "; rotation by its Cayley parameters", sub=nPe * nPe)
+
+
 def frame_obligations(prop, tier):
     obs = []
     cases = [(2, 3, "iso", False), (2, 3, "general", False), (2, 3, "general", True), (2, 4, "general", False)]
@@ -1662,6 +1698,9 @@ def frame_obligations(prop, tier):
         obs.append(Ob(f"{prop}.gp.element.{dim}d.n{nPe}.{law}{'.reflected' if refl else ''}", ob_frame_element, (dim, nPe, law, refl), "P",
                       (f_(GP, "_GroupElem.Get_B_e_pg"), f_(BP, "LinearizedElasticity")),
                       clause="K(Q dN, C turned by Q) == (Q (x) Q) K(dN, C) for every rotation / reflection Q, every anisotropic law (2-D) or isotropic law (3-D), at the generic (e, p); all Ne, nPg", timeout=1800))
+    for dim, nPe, refl in [(2, 3, False), (2, 4, True), (3, 4, False)] + ([(3, 8, True)] if tier == "thorough" else []):
+        obs.append(Ob(f"{prop}.gp.diffusion.{dim}d.n{nPe}{'.reflected' if refl else ''}", ob_frame_diffusion, (dim, nPe, refl), "P", (f_(BP, "GradU_A_GradV"),),
+                      clause="K(Q dN, Q A Q^T) == K(dN, A) for every rotation / reflection Q and every (non-symmetric) conductivity tensor A at the generic (e, p); all Ne, nPg", timeout=1800))
     obs.append(Ob(f"{prop}.gp.canary.element", ob_frame_element, (2, 3, "general", False, True), "P", expect=REFUTED, clause="an anisotropic material left unturned must be refuted", timeout=300))
     return obs
 
